@@ -313,8 +313,18 @@ func parseTypeString(s string) (*STypeExpr, error) {
 
 // visible reports whether a clause is part of the view for property prop
 // ("" = all clauses).
+// visible: every clause takes part in every check whose dependency cone contains its function, unless it has been
+// dropped for this run (second pass of a property check: a clause that fails but belongs only to other properties
+// is withdrawn from the assumptions, to see whether this property's proof depends on it).
 func (c *Clause) visible(prop string) bool {
-	if prop == "" || len(c.Tags) == 0 {
+	return !droppedClauses[c.Func+"."+c.Label]
+}
+
+var droppedClauses = map[string]bool{}
+
+// ownedBy: the clause is part of property prop's claim (tagged with it), or shared infrastructure (untagged).
+func (c *Clause) ownedBy(prop string) bool {
+	if len(c.Tags) == 0 {
 		return true
 	}
 	for _, t := range c.Tags {
